@@ -265,7 +265,7 @@ impl C14Checker {
                         "recovery-incomplete",
                         format!("{} differs from fresh session after {} of {}", name, self.last_repair, self.last_fault),
                         format!("{} differs from fresh session after {} of {}", name, self.last_repair, self.last_fault.split(' ').last().unwrap_or("")),
-                        format!("session: {}\nfresh session: {}\nprefs given to the fresh session: {:?}", got.short(), exp.short(), prefs),
+                        format!("session: {}\nfresh session: {}\nprefs given to the fresh session: {:?}", got.short(), exp.short(), r.applied),
                     );
                     return;
                 }
@@ -282,7 +282,7 @@ impl C14Checker {
                             "recovery-incomplete",
                             format!("{} differs from fresh session after {} of {}", name, self.last_repair, self.last_fault),
                             format!("{} differs from fresh session after {} of {}", name, self.last_repair, self.last_fault.split(' ').last().unwrap_or("")),
-                            format!("session: {}\nfresh session: {}\nprefs given to the fresh session: {:?}", got.short(), exp.short(), prefs),
+                            format!("session: {}\nfresh session: {}\nprefs given to the fresh session: {:?}", got.short(), exp.short(), r.applied),
                         );
                         return;
                     }
